@@ -29,6 +29,7 @@ def build(cfg):
     dw = cfg["dw"]
     m = Module()
     leaves = []
+    strangers = []
 
     def node_bus(node, path):
         if node["kind"] == "dec":
@@ -38,7 +39,21 @@ def build(cfg):
                 bus = node_bus(sub["node"], f"{path}_{i}")
                 if sub.get("align_to") is not None:
                     dec.align_to(sub["align_to"])
+                if cfg.get("refusals") and path == "" and i == (1 if len(node["subs"]) > 1 else 0):
+                    # a bus the decoder REFUSES (its window does not fit): it is nobody's subordinate here, whatever
+                    # it does later (it may live behind another decoder) must not reach this decoder
+                    z = csr.Interface(addr_width=1, data_width=dw, path=("stranger",))
+                    z.memory_map = MemoryMap(addr_width=1, data_width=dw)
+                    try:
+                        dec.add(z, addr=1 << node["aw"])
+                    except ValueError:
+                        strangers.append(z)
                 dec.add(bus, name=sub.get("name"), addr=sub.get("addr"))
+                if cfg.get("refusals"):
+                    try:
+                        dec.add(bus)           # the same bus offered again: refused, and the first window stays
+                    except ValueError:
+                        pass
                 if cfg.get("use_between"):
                     list(dec.bus.memory_map.window_patterns())
                     list(dec.bus.memory_map.all_resources())
@@ -84,6 +99,8 @@ def build(cfg):
             s, e = starts[id(b.memory_map)]
             lv.append(dict(start=s, stop=e, aw=b.addr_width))
         meta["leaves"] = lv
+        for z in strangers:
+            inputs.append(("stranger_r_data", z.r_data))
     else:
         regs = []
         for k, info in enumerate(root.memory_map.all_resources()):
@@ -129,10 +146,11 @@ class RouteObserver:
             letters = []
             for addr, r, w, wd in itertools.product(range(1 << aw), (0, 1), (0, 1), wds):
                 for v in ([0] if src < 0 else [0] + vals):
-                    d = dict(addr=addr, r_stb=r, w_stb=w, w_data=wd)
-                    for k in range(n):
-                        d[f"sub{k}_r_data"] = v if k == src else 0
-                    letters.append(tuple(d[name] for name in order))
+                    for zv in ((0, vals[-1]) if "stranger_r_data" in ii else (0,)):
+                        d = dict(addr=addr, r_stb=r, w_stb=w, w_data=wd, stranger_r_data=zv)
+                        for k in range(n):
+                            d[f"sub{k}_r_data"] = v if k == src else 0
+                        letters.append(tuple(d[name] for name in order))
             self._by_src[src] = letters
 
     def letters(self, obs):
@@ -269,6 +287,8 @@ def configs(tier):
     # a few routing configurations with the decoder queried / elaborated between the add() calls
     out += [dict(c, use_between=True) for c in out if c["part"] == 1 and len(c["tree"]["subs"]) >= 2][::(9 if quick else 3)]
     out += [dict(c, elab_twice=True) for c in out if len(c["tree"]["subs"]) >= 2 and not c.get("use_between")][::(13 if quick else 5)]
+    out += [dict(c, refusals=True) for c in out if c["part"] == 1 and not c.get("use_between") and not c.get("elab_twice")][::(7 if quick else 3)]
+    out += [dict(c, refusals=True) for c in out if c["part"] == 2 and not c.get("elab_twice") and not c.get("refusals")][::(9 if quick else 4)]
     return out
 
 
